@@ -94,7 +94,7 @@ pub fn handle(op: &str, a: &[&str]) -> Option<Resp> {
                 let raws = ls.iter().filter(|l| matches!(l, Line::Raw(_))).count();
                 let mut others = ls.clone();
                 others.retain(|l| !matches!(l, Line::Raw(_)));
-                if raws == 1 && docspec::wf_ignoring_raw(&ls) && strict.is_some() {
+                if raws == 1 && docspec::wf_ignoring_raw(&ls) && docspec::raw_positions_ok(&ls) && strict.is_some() {
                     fail = Some("document with a corrupted line accepted by the strict reader".to_string());
                 }
             }
@@ -420,6 +420,20 @@ pub fn generate_c03(tier: &str, seed: u64, out: &mut Out) {
             } else {
                 bad.insert(i, b);
             }
+            out.req("deb.doc", &[docspec::enc_lines(&bad), fnl.to_string()]);
+        }
+        // an orphan continuation line (indentation + text with nothing to continue) as the first line
+        // of the document or directly after a blank line
+        if rng.chance(15) {
+            let mut slots: Vec<usize> = vec![0];
+            for (i, l) in ls.iter().enumerate() {
+                if *l == Line::Blank {
+                    slots.push(i + 1);
+                }
+            }
+            let i = *rng.pick(&slots);
+            let mut bad = ls.clone();
+            bad.insert(i, Line::Raw(rng.pick(&docspec::ORPHAN_LINES).to_string()));
             out.req("deb.doc", &[docspec::enc_lines(&bad), fnl.to_string()]);
         }
     }
